@@ -407,7 +407,8 @@ Proof. vm_compute. split; reflexivity. Qed.
    application built from a configuration that defines the global help option the way DefaultApplicationConfig does
    (add_option("help", "h", Option.NO_VALUE)): commands WITH default sub-commands included (also anonymous ones, lenient
    ones, and the application's own default commands when the line is empty), and with NO hypothesis on the parser - when the
-   lenient parse raises (ValueError: a typed argument), the three spellings raise the same error.
+   lenient parse raises (a kind other than ValueError - a value error no longer escapes the help resolver since fix 488171f),
+   the three spellings raise the same error.
    The side conditions left are needed (examples below):
      - the configuration defines the help option (else a strictly parsed default sub-command refuses "--help");
      - the line consists of plain tokens (what the property calls a path);
@@ -494,12 +495,27 @@ Example ex_help_same_page_applied : forall a, build_app ex_dcfg = Ok a ->
 Proof. intros a Ha. apply (help_same_page ex_dcfg a [SERVER] Ha); reflexivity. Qed.
 
 (* the parse hypotheses of help_same_page_partial cannot be derived from the configuration: "secret" takes an integer, and the
-   lenient parse of "server secret add" raises ValueError ("add" is no sub-command of secret, so it is the integer) - under all three spellings *)
+   lenient parse of "server secret add" raises ValueError ("add" is no sub-command of secret, so it is the integer).  BEFORE
+   fix 488171f that error escaped the help resolver - under all three spellings the run ended in a ValueError report
+   (help_target_before_the_repair: the model as it was); since the fix the help resolver shows the page of "server secret"
+   whatever the values on the line are (Model/Switches.v help_lenient) - under all three spellings *)
+From Clikit Require Proofs.HelpAnywhereTotalLemmas.
+Example ex_help_value_error_before_the_repair :
+  match build_app ex_dcfg with
+  | Ok a =>
+    HelpAnywhereTotalLemmas.help_target_before_the_repair a [S_help; SERVER; SECRET; ADD] = Err ValueError /\
+    HelpAnywhereTotalLemmas.help_target_before_the_repair a [SERVER; SECRET; ADD; T_help] = Err ValueError /\
+    HelpAnywhereTotalLemmas.help_target_before_the_repair a [SERVER; SECRET; ADD; T_h] = Err ValueError /\
+    match walk (named_of (ap_cmds a)) None [SERVER; SECRET; ADD] with
+    | Ok (Some (b, p)) => p = [SERVER; SECRET] /\ parse (b_fmt b) true [SERVER; SECRET; ADD] = Err ValueError
+    | _ => False end
+  | Err _ => False end.
+Proof. vm_compute. repeat split; reflexivity. Qed.
 Example ex_help_value_error :
   match build_app ex_dcfg with
   | Ok a =>
-    help_target a [S_help; SERVER; SECRET; ADD] = Err ValueError /\
-    help_target a [SERVER; SECRET; ADD; T_help] = Err ValueError /\ help_target a [SERVER; SECRET; ADD; T_h] = Err ValueError
+    help_target a [S_help; SERVER; SECRET; ADD] = Ok [SERVER; SECRET] /\
+    help_target a [SERVER; SECRET; ADD; T_help] = Ok [SERVER; SECRET] /\ help_target a [SERVER; SECRET; ADD; T_h] = Ok [SERVER; SECRET]
   | Err _ => False end.
 Proof. vm_compute. repeat split; reflexivity. Qed.
 
@@ -863,10 +879,10 @@ Example ex_run_computed :
     sm_action (run_summary false a [S_help; SERVER]) = AHelpCmd [SERVER; RUN] /\
     sm_action (run_summary false a [SERVER; T_help]) = AHelpCmd [SERVER; RUN] /\
     sm_action (run_summary false a [SERVER; T_h]) = AHelpCmd [SERVER; RUN] /\
-    (* the same failure: "secret" takes an integer *)
-    sm_action (run_summary false a [S_help; SERVER; SECRET; ADD]) = AHelpFail ValueError /\
-    sm_action (run_summary false a [SERVER; SECRET; ADD; T_help]) = AHelpFail ValueError /\
-    sm_action (run_summary false a [SERVER; SECRET; ADD; T_h]) = AHelpFail ValueError /\
+    (* "secret" takes an integer and "add" is none: the same page all the same (a ValueError report before fix 488171f) *)
+    sm_action (run_summary false a [S_help; SERVER; SECRET; ADD]) = AHelpCmd [SERVER; SECRET] /\
+    sm_action (run_summary false a [SERVER; SECRET; ADD; T_help]) = AHelpCmd [SERVER; SECRET] /\
+    sm_action (run_summary false a [SERVER; SECRET; ADD; T_h]) = AHelpCmd [SERVER; SECRET] /\
     (* a word that names no command *)
     sm_action (run_summary false a [S_help; X7]) = sm_action (run_summary false a [X7; T_help])
   | Err _ => False end.
